@@ -432,6 +432,7 @@ def worker_main(spec):
 def run_parallel(a, hs):
     import subprocess
     import tempfile
+    own = not os.environ.get("VERIF_SCRATCH")
     scratch = os.environ.get("VERIF_SCRATCH") or tempfile.mkdtemp(prefix="c07-")
     procs = []
     for k in range(WORKERS):
@@ -451,6 +452,11 @@ def run_parallel(a, hs):
         for rec in json.load(open(outp)):
             results[rec["i"]] = rec
         os.remove(outp)
+    if own:
+        try:
+            os.rmdir(scratch)
+        except OSError:
+            pass
     return [results[i] for i in range(len(hs))]
 
 
